@@ -44,6 +44,11 @@ func (ex *Exec) axioms(cone []*Term) []*Term {
 			out = append(out, ILe(IntC(0), t))
 		case "uf:cat":
 			out = append(out, ILe(IntC(0), t), Eq(Eq(t, IntC(0)), And(Eq(t.args[0], IntC(0)), Eq(t.args[1], IntC(0)))))
+		case "uf:legacytitle":
+			// the derived title is never blank ("(untitled)" or a trimmed non-empty line)
+			out = append(out, ILt(IntC(0), t), Neq(UF("trim", SInt, t), IntC(0)))
+		case "uf:legacybody":
+			out = append(out, ILe(IntC(0), t))
 		case "uf:toupper", "uf:tolower", "uf:quote", "uf:trimprefix", "uf:trimsuffix", "uf:replaceall", "uf:boxstr":
 			out = append(out, ILe(IntC(0), t))
 		}
